@@ -1,17 +1,26 @@
 (* ServerFacts.v — C12 / C03 at the level of the handlers (Server.v):
-     S1  navigation used by the handlers is total on live nodes of a well-formed arena
-         (node_key, key_of, owner, get_all_sub_nodes, search_paths), URLs are total for an
-         absolute library directory;
-     S2  the server invariant [SInv] (Reachable.Inv + line maps of every key + cached search
-         paths) holds after Server::new on notes with distinct keys and after every notification;
-     S3  C12_panic_sound: at every state of the invariant a handler panics only on a request
-         of the decidable class [may_panic]; C12_handlers_total: requests about existing notes
-         are answered; one witness of a real panic per class;
-     S4  the router of Router.v instantiated with [handle]: exactly once, and with a RESULT. *)
+     S1   navigation used by the handlers is total on live nodes of a well-formed arena (node_key,
+          key_of, owner, get_all_sub_nodes), Graph::search_paths returns at every state of
+          Reachable.Inv, URLs are total for an absolute library directory;
+     S1b  the line maps: every entry the builder puts into nodes_map is a slot it has just allocated
+          (builder_map, by induction on the fuel of the five mutually recursive functions), every id
+          in the map of a key is a node of the tree of that key after import and after every update
+          (maps_own), `collect` reaches every node of the walk (collect_complete): the node under
+          any line of an existing note is in the tree the code actions collect (line_target_ok_holds);
+     S2   the server invariant [SInv] (Reachable.Inv + line maps + cached search paths) holds after
+          Server::new on notes with distinct keys and after every notification (the server keeps
+          serving: no notification panics);
+     S3   C12_panic_sound / C12_handler_panic_domain: at every state of the invariant a handler
+          panics only on a request of the decidable class [may_panic]; C12_handlers_total: requests
+          about existing notes are answered; S3b: the classes are real (general theorems where the
+          panic is forced, concrete witnesses otherwise);
+     S4   the router of Router.v instantiated with [handle]: exactly once, with a RESULT for
+          requests about existing notes, InternalError only for the class;
+     S6   exact domains for the key methods; server states are Reachable.reached states. *)
 From Coq Require Import Lia List Bool Arith ZArith Permutation.
 From IweV Require Import Str Text Ast RelPath Arena ArenaWF ArenaFacts ForestFacts Project Library LibraryFacts
   HistoryWF HistoryClosed Index IndexFacts IndexHistory Paths PathsFacts Squash SquashFacts Reachable
-  TreeOps Actions TreeOpsFacts ActionsTotal ActionsGraph Router RouterFacts Server.
+  BuilderFacts BuilderWF TreeOps Actions TreeOpsFacts ActionsTotal ActionsGraph Router RouterFacts Server.
 From IweV Require Rename RenameFacts Url UrlFacts.
 From IweV Require Pos PosFacts.
 Import ListNotations.
@@ -318,15 +327,8 @@ Proof.
 Qed.
 
 (* ================================================================================================ *)
-(* S2 — the server invariant                                                                         *)
+(* S1b — the line map: every id `get_node_id_at` can return is a node of the note's tree             *)
 (* ================================================================================================ *)
-
-(* every key has a line map (`nodes_map.get(key).expect(..)` in get_node_id_at) *)
-Definition maps_dom (g : graph) : Prop :=
-  forall k, alookup k (gr_keys g) = None <-> alookup k (gr_maps g) = None.
-
-Definition SInv (sv : sstate) : Prop :=
-  Inv (ss_gs sv) /\ maps_dom (gs_graph (ss_gs sv)) /\ search_paths true (ss_gs sv) = Ok (ss_paths sv).
 
 Lemma refresh_title_maps g k : gr_maps (refresh_title g k) = gr_maps g.
 Proof.
@@ -339,6 +341,414 @@ Lemma refresh_all_maps (l : list (string * nat)) : forall g,
 Proof.
   induction l as [|kv l IH]; intros g; cbn [fold_left]; [reflexivity|]. now rewrite IH, refresh_title_maps.
 Qed.
+
+(* the id the line map of [key] hands to the code actions is a node of a live note *)
+Definition line_target_ok (g : graph) (key : string) (line : nat) : bool :=
+  match get_node_id_at g key line with
+  | Ok (Some target) =>
+      match key_of g target with
+      | Ok k => match collect_key g k with Ok t => contains t target | Panic _ => false end
+      | Panic _ => false
+      end
+  | _ => true
+  end.
+
+(* the entries the builder adds to nodes_map name nodes it has just allocated *)
+Definition MapR (st st' : bst) : Prop :=
+  length (b_arena st) <= length (b_arena st') /\
+  forall e, In e (b_map st') -> In e (b_map st) \/ length (b_arena st) <= fst e < length (b_arena st').
+
+Lemma MapR_refl st : MapR st st.
+Proof. split; [lia | auto]. Qed.
+
+Lemma MapR_trans s1 s2 s3 : MapR s1 s2 -> MapR s2 s3 -> MapR s1 s3.
+Proof.
+  intros [L1 M1] [L2 M2]. split; [lia|]. intros e He. destruct (M2 e He) as [H|H]; [|right; lia].
+  destruct (M1 e H) as [H'|H']; [now left | right; lia].
+Qed.
+
+Lemma MapR_same s1 s1' s2 s2' :
+  b_arena s1' = b_arena s1 -> b_map s1' = b_map s1 -> b_arena s2' = b_arena s2 -> b_map s2' = b_map s2 ->
+  MapR s1 s2 -> MapR s1' s2'.
+Proof. unfold MapR. intros -> -> -> ->. auto. Qed.
+
+Lemma add_node_shape st k st' : add_node st k = Ok st' ->
+  length (b_arena st') = S (length (b_arena st)) /\ b_cur st' = length (b_arena st) /\ b_map st' = b_map st.
+Proof.
+  unfold add_node. intros H. apply bind_inv in H as (a' & H1 & H). injection H as <-. cbn [b_arena b_cur b_map].
+  destruct (HistoryWF.link_shape _ _ _ _ _ H1) as (x & ->).
+  rewrite app_length, set_nth_length. cbn [length]. repeat split; lia.
+Qed.
+
+Definition mapr_ok (F : bst -> res bst) : Prop := forall st st', F st = Ok st' -> MapR st st'.
+
+Lemma add_node_MapR k : mapr_ok (fun st => add_node st k).
+Proof.
+  intros st st' H. destruct (add_node_shape _ _ _ H) as (L & _ & M). split; [lia|]. rewrite M. auto.
+Qed.
+
+Lemma add_then_lines_MapR k lr : mapr_ok (fun st => do st1 <- add_node st k; Ok (set_lines_range st1 lr)).
+Proof.
+  intros st st' H. apply bind_inv in H as (st1 & H1 & H). injection H as <-.
+  destruct (add_node_shape _ _ _ H1) as (L & C & M). unfold MapR, set_lines_range. cbn [b_arena b_map]. split; [lia|].
+  intros e He. apply in_app_iff in He as [He|[<-|[]]]; [left; now rewrite <- M | right; cbn [fst]; lia].
+Qed.
+
+Lemma fold_MapR {X} (step : bst -> X -> res bst) l :
+  (forall x, In x l -> mapr_ok (fun s => step s x)) ->
+  mapr_ok (fun st => fold_left (fun acc x => do s <- acc; step s x) l (Ok st)).
+Proof.
+  intros Hs st st' H.
+  apply (fold_bind_inv step MapR) with (l := l); auto using MapR_refl.
+  - intros a b c; apply MapR_trans.
+  - intros x s s' Hx E. eapply Hs; eauto.
+Qed.
+
+Section BuilderMap.
+  Variable dir : string.
+
+  Lemma builder_map : forall f,
+    (forall b, mapr_ok (block dir f b)) /\
+    (forall b, mapr_ok (section_block dir f b)) /\
+    (forall it, mapr_ok (process_section dir f it)) /\
+    (forall L bs, mapr_ok (process_sections dir f L bs)) /\
+    (forall bs, mapr_ok (process_blocks dir f bs)).
+  Proof.
+    induction f as [|f (IHb & IHsb & IHs & IHss & IHbs)].
+    - split; [|split; [|split; [|split]]]; unfold mapr_ok; intros; discriminate.
+    - assert (Items : forall its, mapr_ok (fun st => fold_left (fun acc it => do s <- acc; process_section dir f it s) its (Ok st))).
+      { intros its. apply fold_MapR. intros it _. apply IHs. }
+      assert (Lst : forall k its, mapr_ok (fun st =>
+                 do st <- add_node st k;
+                 let st := set_insert st true in
+                 let id := b_cur st in
+                 do st <- fold_left (fun acc it => do s <- acc; process_section dir f it s) its (Ok st);
+                 Ok (set_insert (set_id st id) false))).
+      { intros k its st st' H. apply bind_inv in H as (st1 & H1 & H). cbv zeta in H.
+        apply bind_inv in H as (st2 & H2 & H). injection H as <-.
+        apply add_node_MapR in H1. apply Items in H2.
+        eapply MapR_trans; [exact H1|]. eapply MapR_same; [| | | |exact H2]; reflexivity. }
+      split; [|split; [|split; [|split]]].
+      + (* block *)
+        intros b st st' H. rewrite block_S in H.
+        destruct b as [lr l|lr lang text|lr bs|its|its|lr lv l|lr|lr h al rows]; try discriminate.
+        * destruct (para_is_ref l).
+          -- destruct l as [|i r]; try discriminate. destruct i; try discriminate. destruct r; try discriminate.
+             eapply add_then_lines_MapR; eauto.
+          -- eapply add_then_lines_MapR; eauto.
+        * eapply add_then_lines_MapR; eauto.
+        * apply bind_inv in H as (st1 & H1 & H). cbv zeta in H. apply bind_inv in H as (inner & H2 & H).
+          injection H as <-.
+          assert (R1 : MapR st (set_lines_range st1 lr)).
+          { apply (add_then_lines_MapR KQuote lr). rewrite H1. reflexivity. }
+          apply IHbs in H2. destruct H2 as [L2 _]. cbn [b_arena set_lines_range] in L2.
+          destruct R1 as [L1 M1]. cbn [b_arena set_lines_range b_map] in L1, M1.
+          split; cbn [b_arena b_map set_lines_range]; [lia|].
+          intros e He. destruct (M1 e He) as [X|X]; [now left | right; lia].
+        * eapply Lst; eauto.
+        * eapply Lst; eauto.
+        * eapply add_then_lines_MapR; eauto.
+        * eapply add_then_lines_MapR; eauto.
+      + (* section_block *)
+        intros b st st' H. rewrite section_block_S in H.
+        destruct b as [lr l|lr lang text|lr bs|its|its|lr lv l|lr|lr h al rows]; try discriminate.
+        * eapply add_then_lines_MapR; eauto.
+        * eapply Items; eauto.
+        * eapply Items; eauto.
+        * eapply add_then_lines_MapR; eauto.
+      + (* process_section *)
+        intros it st st' H. rewrite process_section_S in H. destruct it as [|h body].
+        * injection H as <-. apply MapR_refl.
+        * destruct (starts_with_header (h :: body)).
+          -- apply bind_inv in H as (st1 & H1 & H). cbv zeta in H. apply bind_inv in H as (st2 & H2 & H).
+             injection H as <-. apply IHsb in H1. apply IHbs in H2.
+             eapply MapR_trans; [exact H1|]. eapply MapR_same; [| | | |exact H2]; reflexivity.
+          -- apply bind_inv in H as (st1 & H1 & H). cbv zeta in H. apply bind_inv in H as (st2 & H2 & H).
+             injection H as <-. apply add_node_MapR in H1. apply IHbs in H2.
+             eapply MapR_trans; [exact H1|]. eapply MapR_same; [| | | |exact H2]; reflexivity.
+      + (* process_sections *)
+        intros L bs st st' H. rewrite process_sections_S in H. destruct bs as [|h r].
+        * injection H as <-. apply MapR_refl.
+        * destruct (span_section L r) as [body rest]. apply bind_inv in H as (st1 & H1 & H).
+          apply IHs in H1. apply IHss in H. eapply MapR_trans; eauto.
+      + (* process_blocks *)
+        intros bs st st' H. rewrite process_blocks_S in H. destruct bs as [|b0 bs0].
+        * injection H as <-. apply MapR_refl.
+        * cbv zeta in H. destruct (span_pre (b0 :: bs0)) as [pre rest].
+          apply bind_inv in H as (st1 & H1 & H).
+          assert (E1 : MapR st st1).
+          { apply (fold_MapR (fun s b => block dir f b s) pre) in H1; [|intros b _; apply IHb].
+            eapply MapR_same; [| | | |exact H1]; reflexivity. }
+          destruct rest as [|h r]; [injection H as <-; exact E1|].
+          destruct (header_level h) as [L|]; [|injection H as <-; exact E1].
+          apply IHss in H. eapply MapR_trans; eauto.
+  Qed.
+End BuilderMap.
+
+(* Graph::build_key + SectionsBuilder: every entry of the note's nodes_map is a slot allocated for
+   this note *)
+Theorem build_document_map a key bs st : build_document a key bs = Ok st ->
+  forall e, In e (b_map st) -> length a < fst e < length (b_arena st).
+Proof.
+  unfold build_document. intros H e He.
+  destruct (builder_map (key_parent key) (fuel_for bs)) as (_ & _ & _ & _ & HB).
+  apply HB in H. destruct H as [_ M]. destruct (M e He) as [X|X]; [destruct X|].
+  cbn [build_key b_arena] in X. rewrite app_length in X. cbn [length] in X. lia.
+Qed.
+
+(* ---------- the walk of a note's tree: stability ---------------------------------------------------- *)
+
+Lemma subtree_agree_in a a' : forall f r y,
+  (forall id, In id (subtree_ids f a r) -> get a' id = get a id) ->
+  In y (subtree_ids f a r) -> In y (subtree_ids f a' r).
+Proof.
+  induction f as [|f IH]; intros r y H Hy; [destruct Hy|].
+  rewrite ForestFacts.subtree_ids_S in H, Hy. rewrite ForestFacts.subtree_ids_S.
+  destruct (get a r) as [n|] eqn:Hn; [|destruct Hy].
+  rewrite (H r (or_introl eq_refl)), Hn. destruct Hy as [<-|Hy]; [now left|]. right.
+  apply in_app_iff in Hy. apply in_app_iff. destruct Hy as [Hy|Hy].
+  - left. destruct (g_child n) as [c|]; [|destruct Hy]. apply IH; [|exact Hy].
+    intros id Hid. apply H. right. apply in_app_iff. now left.
+  - right. destruct (is_dock (g_kind n)); [destruct Hy|]. destruct (g_next n) as [x|]; [|destruct Hy].
+    apply IH; [|exact Hy]. intros id Hid. apply H. right. apply in_app_iff. now right.
+Qed.
+
+Lemma subtree_mono a : forall f f' r y, f <= f' -> In y (subtree_ids f a r) -> In y (subtree_ids f' a r).
+Proof.
+  induction f as [|f IH]; intros f' r y Hf Hy; [destruct Hy|]. destruct f' as [|f']; [lia|].
+  rewrite ForestFacts.subtree_ids_S in Hy. rewrite ForestFacts.subtree_ids_S.
+  destruct (get a r) as [n|]; [|destruct Hy]. destruct Hy as [<-|Hy]; [now left|]. right.
+  apply in_app_iff in Hy. apply in_app_iff. destruct Hy as [Hy|Hy].
+  - left. destruct (g_child n) as [c|]; [|destruct Hy]. apply (IH f'); [lia | exact Hy].
+  - right. destruct (is_dock (g_kind n)); [destruct Hy|]. destruct (g_next n) as [x|]; [|destruct Hy].
+    apply (IH f'); [lia | exact Hy].
+Qed.
+
+Lemma subtree_in_range a : forall f r y, In y (subtree_ids f a r) -> y < length a.
+Proof.
+  induction f as [|f IH]; intros r y Hy; [destruct Hy|]. rewrite ForestFacts.subtree_ids_S in Hy.
+  destruct (get a r) as [n|] eqn:Hn; [|destruct Hy]. destruct Hy as [<-|Hy]; [eapply ArenaFacts.get_lt; eauto|].
+  apply in_app_iff in Hy as [Hy|Hy].
+  - destruct (g_child n) as [c|]; [|destruct Hy]. eapply IH; eauto.
+  - destruct (is_dock (g_kind n)); [destruct Hy|]. destruct (g_next n) as [x|]; [|destruct Hy]. eapply IH; eauto.
+Qed.
+
+(* ---------- the invariant of the line maps ---------------------------------------------------------- *)
+
+(* every id in the nodes_map of a key is a node of the tree of that key *)
+Definition maps_own (g : graph) : Prop :=
+  forall key m root e, alookup key (gr_maps g) = Some m -> alookup key (gr_keys g) = Some root -> In e m ->
+    In (fst e) (subtree_ids (S (length (gr_arena g))) (gr_arena g) root).
+
+Lemma maps_own_ext g g' :
+  gr_arena g' = gr_arena g -> gr_keys g' = gr_keys g -> gr_maps g' = gr_maps g -> maps_own g -> maps_own g'.
+Proof. unfold maps_own. intros -> -> ->. auto. Qed.
+
+Lemma built_map_owned a1 key bs st : arena_ok a1 = true -> build_document a1 key bs = Ok st ->
+  forall e, In e (b_map st) -> In (fst e) (subtree_ids (S (length (b_arena st))) (b_arena st) (length a1)).
+Proof.
+  intros Hok Hb e He. pose proof (build_document_map a1 key bs st Hb e He) as Hr.
+  destruct (BuilderWF.build_document_owned a1 key bs Hok) as (st' & Hb' & _ & Perm).
+  rewrite Hb in Hb'. injection Hb' as <-.
+  eapply Permutation_in; [apply Permutation_sym; exact Perm|]. apply in_seq. lia.
+Qed.
+
+(* one note built on top of a well-formed arena (Graph::from_markdown without the deletion; import) *)
+Lemma build_note_own g key meta bs g' :
+  arena_ok (gr_arena g) = true -> maps_own g -> build_note g key meta bs = Ok g' -> maps_own g'.
+Proof.
+  intros Hok HO H. unfold build_note in H. apply bind_inv in H as (st & Hb & E). injection E as <-.
+  intros k m root e. cbn [gr_arena gr_keys gr_maps]. destruct (String.eqb k key) eqn:Ek.
+  - apply String.eqb_eq in Ek. subst k. rewrite !LibraryFacts.alookup_ainsert_same. intros [= <-] [= <-] He.
+    eapply built_map_owned; eauto.
+  - rewrite !LibraryFacts.alookup_ainsert_other by exact Ek. intros Hm Hr He.
+    pose proof (HO k m root e Hm Hr He) as Hin.
+    pose proof (HistoryWF.build_document_frame _ _ _ _ Hb) as Hfirst.
+    pose proof (HistoryWF.firstn_eq_length _ _ Hfirst) as Hlen.
+    apply (subtree_mono _ (S (length (gr_arena g)))); [lia|].
+    apply (subtree_agree_in (gr_arena g)); [|exact Hin].
+    intros id Hid. apply subtree_in_range in Hid.
+    transitivity (get (firstn (length (gr_arena g)) (b_arena st)) id); [symmetry; now apply HistoryWF.get_firstn | now rewrite Hfirst].
+Qed.
+
+(* Graph::update_key *)
+Lemma update_key_own g key meta bs g' :
+  graph_inv g -> maps_own g -> update_key g key meta bs = Ok g' -> maps_own g'.
+Proof.
+  intros Hinv HO H. pose proof H as H0.
+  unfold update_key in H0. apply bind_inv in H0 as (a1 & Hdel & H0).
+  unfold from_blocks in H0. apply bind_inv in H0 as (g1 & Hbn & E). injection E as <-.
+  unfold build_note in Hbn. cbn [gr_arena gr_keys gr_maps gr_titles gr_meta] in Hbn.
+  apply bind_inv in Hbn as (st & Hb & E). injection E as <-.
+  assert (H1 : arena_ok a1 = true /\ length a1 = length (gr_arena g)).
+  { destruct (alookup key (gr_keys g)) as [root|] eqn:Hl.
+    - destruct (ready_deleted g key root a1 Hinv Hl Hdel) as [(Hok & _) Hlen]. auto.
+    - injection Hdel as <-. destruct (ready_fresh g key Hinv Hl) as (Hok & _). auto. }
+  destruct H1 as (Hok1 & Hlen1).
+  eapply maps_own_ext; [apply HistoryWF.refresh_title_arena | apply HistoryWF.refresh_title_keys | apply refresh_title_maps |].
+  intros k m root e. cbn [gr_arena gr_keys gr_maps]. destruct (String.eqb k key) eqn:Ek.
+  - apply String.eqb_eq in Ek. subst k. rewrite !LibraryFacts.alookup_ainsert_same. intros [= <-] [= <-] He.
+    eapply built_map_owned; eauto.
+  - rewrite !LibraryFacts.alookup_ainsert_other by exact Ek. intros Hm Hr He.
+    pose proof (HO k m root e Hm Hr He) as Hin.
+    assert (Hne : k <> key) by (intros ->; now rewrite String.eqb_refl in Ek).
+    destruct Hinv as [Hwf _].
+    destruct (HistoryWF.update_frame g key meta bs _ k root Hwf H Hne Hr) as [_ Hfr].
+    rewrite HistoryWF.refresh_title_arena in Hfr. cbn [gr_arena] in Hfr.
+    pose proof (HistoryWF.build_document_frame _ _ _ _ Hb) as Hfirst.
+    pose proof (HistoryWF.firstn_eq_length _ _ Hfirst) as Hlen.
+    apply (subtree_mono _ (S (length (gr_arena g)))); [lia|].
+    apply (subtree_agree_in (gr_arena g)); [|exact Hin]. exact Hfr.
+Qed.
+
+Lemma import_own notes g : import notes = Ok g -> maps_own g.
+Proof.
+  intros H. unfold import in H. apply bind_inv in H as (g1 & Hf & E). injection E as <-.
+  destruct (refresh_all_arena_keys (gr_keys g1) g1) as [Ea Ek].
+  eapply maps_own_ext; [exact Ea | exact Ek | apply refresh_all_maps |].
+  assert (P : arena_ok (gr_arena g1) = true /\ all_live (gr_arena g1) /\ maps_own g1); [|tauto].
+  refine (HistoryWF.fold_inv
+            (fun g (n : string * option string * list dblock) =>
+               let '(name, meta, bs) := n in build_note g (key_from_file_name name) meta bs)
+            (fun g => arena_ok (gr_arena g) = true /\ all_live (gr_arena g) /\ maps_own g) notes _ empty_graph g1 _ Hf).
+  - intros [[name meta] bs] s0 s1 _ (Hok & Hl & HO) Hb.
+    destruct (build_note_live s0 _ meta bs s1 (conj Hok Hl) Hb) as [Hok' Hl'].
+    split; [exact Hok'|]. split; [exact Hl'|]. exact (build_note_own s0 _ meta bs s1 Hok HO Hb).
+  - split; [reflexivity|]. split; [intros i n Hn; destruct i; discriminate|].
+    intros k m root e Hm. discriminate Hm.
+Qed.
+
+(* ---------- `collect` reaches every node of the walk ------------------------------------------------ *)
+
+Section CollectComplete.
+  Variable a : arena.
+  Hypothesis Hok : arena_ok a = true.
+  Variable nf : nat -> gkind -> option node.
+  Hypothesis Hnf : forall i k, is_emptyk k = false -> nf i k <> None.
+
+  Lemma collect_fuel_none f id : collect_fuel f nf a id = Ok None ->
+    exists n, get a id = Some n /\ nf id (g_kind n) = None.
+  Proof.
+    destruct f as [|f]; [discriminate|]. rewrite collect_fuel_S. destruct (get a id) as [n|]; [|discriminate].
+    destruct (nf id (g_kind n)) eqn:E; [|eauto].
+    destruct (match g_child n with None => Ok [] | Some c => sibling_ids f a c end); cbn [bind]; [|discriminate].
+    match goal with |- (do kids <- ?X; _) = _ -> _ => destruct X end; cbn [bind]; discriminate.
+  Qed.
+
+  Lemma chain_complete f :
+    (forall id t, collect_fuel f nf a id = Ok (Some t) -> forall G y, In y (own a G id) -> In y (some_ids t)) ->
+    forall f' c ids kids, sibling_ids f' a c = Ok ids -> kids_fold a nf f ids = Ok kids ->
+    forall G y, In y (subtree_ids G a c) -> In y (flat_map some_ids kids).
+  Proof.
+    intros Q. induction f' as [|f' IH]; intros c ids kids Hs Hk G y Hy; [discriminate|].
+    rewrite sibling_ids_S in Hs. destruct (get a c) as [n|] eqn:Hn; [|discriminate].
+    destruct (is_emptyk (g_kind n)) eqn:He; [destruct (g_kind n); discriminate|].
+    rewrite (nonempty_match (g_kind n) _ _ He) in Hs.
+    destruct G as [|G']; [destruct Hy|]. rewrite ForestFacts.subtree_ids_S, Hn in Hy.
+    assert (Hc : forall r kr, kids_fold a nf f r = Ok kr ->
+              (do kr0 <- Ok kr; do t <- collect_fuel f nf a c; Ok (match t with Some t => t :: kr0 | None => kr0 end)) = Ok kids ->
+              exists t, collect_fuel f nf a c = Ok (Some t) /\ kids = t :: kr).
+    { intros r kr _ H. cbn [bind] in H. destruct (collect_fuel f nf a c) as [[t|]|] eqn:Ec; cbn [bind] in H; try discriminate.
+      - injection H as <-. eauto.
+      - exfalso. destruct (collect_fuel_none f c Ec) as (n' & Hn' & E'). rewrite Hn in Hn'. injection Hn' as <-.
+        now apply (Hnf c (g_kind n) He). }
+    assert (Hself : forall t, collect_fuel f nf a c = Ok (Some t) ->
+              y = c \/ In y (match g_child n with Some c0 => subtree_ids G' a c0 | None => [] end) -> In y (some_ids t)).
+    { intros t Et Hyc. apply (Q c t Et G'). unfold own, child_walk. rewrite Hn. destruct Hyc as [->|Hyc]; [now left | now right]. }
+    destruct (g_next n) as [nx|] eqn:Hx.
+    - destruct (sibling_ids f' a nx) as [r|] eqn:E; [|discriminate]. cbn [bind] in Hs. injection Hs as <-.
+      rewrite kids_fold_cons in Hk. destruct (kids_fold a nf f r) as [kr|] eqn:Kr; [|discriminate].
+      destruct (Hc r kr Kr Hk) as (t & Et & ->). cbn [flat_map]. apply in_app_iff.
+      destruct Hy as [<-|Hy]; [left; apply (Hself t Et); now left|].
+      apply in_app_iff in Hy as [Hy|Hy]; [left; apply (Hself t Et); now right|].
+      right. destruct (is_dock (g_kind n)); [destruct Hy|]. eapply IH; eauto.
+    - injection Hs as <-. rewrite kids_fold_cons in Hk. cbn [kids_fold fold_right] in Hk.
+      destruct (Hc [] [] eq_refl Hk) as (t & Et & ->). cbn [flat_map]. rewrite app_nil_r.
+      destruct Hy as [<-|Hy]; [apply (Hself t Et); now left|].
+      apply in_app_iff in Hy as [Hy|Hy]; [apply (Hself t Et); now right|].
+      destruct (is_dock (g_kind n)); destruct Hy.
+  Qed.
+
+  Lemma collect_complete : forall f id t, collect_fuel f nf a id = Ok (Some t) ->
+    forall G y, In y (own a G id) -> In y (some_ids t).
+  Proof.
+    induction f as [|f IH]; intros id t H G y Hy; [discriminate|].
+    rewrite collect_fuel_S in H. unfold own in Hy. destruct (get a id) as [n|] eqn:Hn; [|destruct Hy].
+    destruct (nf id (g_kind n)) as [nd|]; [|discriminate].
+    unfold child_walk in Hy. destruct (g_child n) as [c|] eqn:Hc.
+    - destruct (sibling_ids f a c) as [ids|] eqn:Hs; [|discriminate]. cbn [bind] in H.
+      fold (kids_fold a nf f ids) in H. destruct (kids_fold a nf f ids) as [kids|] eqn:K; [|discriminate].
+      cbn [bind] in H. injection H as <-. rewrite some_ids_T. cbn [app].
+      destruct Hy as [<-|Hy]; [now left|]. right. eapply (chain_complete f IH f c ids kids Hs K); eauto.
+    - cbn [bind] in H. injection H as <-. destruct Hy as [<-|[]]. cbn. now left.
+  Qed.
+End CollectComplete.
+
+(* Actions.key_of follows the same prev links as ArenaWF.to_document *)
+Lemma key_of_owner a r rn key : get a r = Some rn -> g_kind rn = KDocument key ->
+  forall f y, ArenaWF.to_document f a y = Ok r -> key_of_fuel f a y = Ok key.
+Proof.
+  intros Hr Hk. induction f as [|f IH]; intros y H; [discriminate|].
+  cbn [ArenaWF.to_document] in H. cbn [key_of_fuel]. destruct (get a y) as [n|] eqn:Hn; [|discriminate].
+  destruct (g_kind n) eqn:K; try discriminate;
+    try (destruct (g_prev n) as [p|]; [now apply IH | discriminate]).
+  injection H as ->. rewrite Hr in Hn. injection Hn as <-. rewrite Hk in K. now injection K as ->.
+Qed.
+
+(* a node of the walk of a note's root: the note is its owner, and `collect` of the note holds it *)
+Lemma walk_node_in_tree g key root id :
+  wf_b (gr_arena g) (gr_keys g) = true -> alookup key (gr_keys g) = Some root ->
+  In id (subtree_ids (S (length (gr_arena g))) (gr_arena g) root) ->
+  key_of g id = Ok key /\ exists t, collect_key g key = Ok t /\ contains t id = true.
+Proof.
+  intros Hwf Hk Hin. set (a := gr_arena g) in *.
+  destruct (proj1 (wf_b_spec _ _) Hwf) as (Hok & Hkeys & _).
+  destruct (proj1 (key_ok_spec a (key, root)) (Hkeys _ (HistoryWF.alookup_In _ _ _ Hk))) as (rn & Hr & Hrk).
+  cbn [fst snd] in Hr, Hrk.
+  destruct (proj1 (subtree_owner_iff a Hok root rn key Hr Hrk id) Hin) as [Hl Ho].
+  pose proof Hl as (n0 & Hn0 & _). apply ArenaFacts.get_lt in Hn0.
+  split.
+  - unfold key_of. fold a. apply (key_of_owner a root rn key Hr Hrk).
+    apply (to_document_more a (S id)); [exact Ho | lia].
+  - assert (Hlr : lv a root) by (exists rn; split; [exact Hr | now rewrite Hrk]).
+    destruct (collect_total (get_key_title g) a root Hok Hlr) as (t & Ht).
+    exists t. unfold collect_key. rewrite Hk. split; [exact Ht|].
+    apply contains_in. unfold collect in Ht.
+    destruct (collect_fuel (S (length a)) (fun _ k => pointer_node (get_key_title g) k) a root) as [[t'|]|] eqn:E; try discriminate.
+    cbn [bind] in Ht. injection Ht as ->.
+    apply (collect_complete a (fun _ k => pointer_node (get_key_title g) k)
+             (fun _ k => pointer_node_some (get_key_title g) k) (S (length a)) root t E (length a)).
+    unfold own, child_walk. rewrite Hr. rewrite ForestFacts.subtree_ids_S, Hr in Hin.
+    destruct Hin as [<-|Hin]; [now left|]. right. apply in_app_iff in Hin as [Hin|Hin]; [exact Hin|].
+    rewrite Hrk in Hin. destruct Hin.
+Qed.
+
+(* HEADLINE of S1b: with the line-map invariant, the id under any line of an existing note is a node
+   of a live note's tree: the side condition of the code-action handler always holds *)
+Theorem line_target_ok_holds g key line :
+  wf_b (gr_arena g) (gr_keys g) = true -> maps_own g -> key_exists g key = true ->
+  line_target_ok g key line = true.
+Proof.
+  intros Hwf HO Hk. unfold line_target_ok. destruct (get_node_id_at g key line) as [[target|]|] eqn:E; try reflexivity.
+  unfold get_node_id_at in E. destruct (alookup key (gr_maps g)) as [m|] eqn:Hm; [|discriminate].
+  injection E as E. destruct (find (fun e => range_contains (snd e) line) (rev m)) as [e|] eqn:F; [|discriminate].
+  injection E as <-. apply find_some in F as [Hin _]. apply in_rev in Hin.
+  unfold key_exists in Hk. destruct (alookup key (gr_keys g)) as [root|] eqn:Hr; [|discriminate].
+  destruct (walk_node_in_tree g key root (fst e) Hwf Hr (HO key m root e Hm Hr Hin)) as (-> & t & -> & ->).
+  reflexivity.
+Qed.
+
+(* ================================================================================================ *)
+(* S2 — the server invariant                                                                         *)
+(* ================================================================================================ *)
+
+(* every key has a line map (`nodes_map.get(key).expect(..)` in get_node_id_at) *)
+Definition maps_dom (g : graph) : Prop :=
+  forall k, alookup k (gr_keys g) = None <-> alookup k (gr_maps g) = None.
+
+Definition SInv (sv : sstate) : Prop :=
+  Inv (ss_gs sv) /\ maps_dom (gs_graph (ss_gs sv)) /\ maps_own (gs_graph (ss_gs sv)) /\
+  search_paths true (ss_gs sv) = Ok (ss_paths sv).
 
 Lemma build_note_dom g key meta bs g' : maps_dom g -> build_note g key meta bs = Ok g' -> maps_dom g'.
 Proof.
@@ -377,8 +787,8 @@ Proof.
   intros Hd. destruct (import_state_step notes Hd) as (s & Hs & HI & Hg).
   destruct (search_paths_total s HI) as (ps & Hps & _).
   exists (SS s docs ps). unfold server_new. rewrite Hs. cbn [bind]. rewrite Hps. cbn [bind].
-  split; [reflexivity|]. split; [|auto]. split; [exact HI|]. split; [|exact Hps].
-  cbn [ss_gs]. eapply import_dom; eauto.
+  split; [reflexivity|]. split; [|auto]. split; [exact HI|]. cbn [ss_gs].
+  split; [eapply import_dom; eauto|]. split; [eapply import_own; eauto | exact Hps].
 Qed.
 
 (* a notification: returns, keeps the invariant (the server keeps serving); its graph part is
@@ -391,13 +801,14 @@ Theorem did_change_total sv n :
     | _ => sv' = sv
     end.
 Proof.
-  intros (HI & D & P) Hn. destruct n as [key meta bs d| |]; [|congruence|].
+  intros (HI & D & O & P) Hn. destruct n as [key meta bs d| |]; [|congruence|].
   - destruct (update_state_step (ss_gs sv) key meta bs HI) as (s' & Hs & HI' & Hg & _).
     destruct (search_paths_total s' HI') as (ps & Hps & _).
     exists (SS s' (ainsert key d (ss_docs sv)) ps). cbn [did_change]. rewrite Hs. cbn [bind]. rewrite Hps. cbn [bind].
-    split; [reflexivity|]. split; [|reflexivity]. split; [exact HI'|]. split; [|exact Hps].
-    cbn [ss_gs]. eapply update_key_dom; eauto.
-  - exists sv. split; [reflexivity|]. split; [|reflexivity]. exact (conj HI (conj D P)).
+    split; [reflexivity|]. split; [|reflexivity]. split; [exact HI'|]. cbn [ss_gs].
+    split; [eapply update_key_dom; eauto|]. split; [|exact Hps].
+    eapply update_key_own; [exact (proj1 HI) | exact O | exact Hg].
+  - exists sv. split; [reflexivity|]. split; [|reflexivity]. exact (conj HI (conj D (conj O P))).
 Qed.
 
 Lemma apply_note_inv sv n : SInv sv -> SInv (apply_note sv n).
@@ -621,7 +1032,7 @@ Section Handlers2.
   Theorem workspace_symbols_total qe score : base_ok (cf_base cf) = true ->
     exists v, handle_workspace_symbols (cf_base cf) sv qe score = Ok v.
   Proof.
-    intros Hb. destruct HS as (HI & _ & HP). destruct (search_paths_total (ss_gs sv) HI) as (ps & Hps & L).
+    intros Hb. destruct HS as (HI & _ & _ & HP). destruct (search_paths_total (ss_gs sv) HI) as (ps & Hps & L).
     rewrite HP in Hps. assert (Eps : ps = ss_paths sv) by congruence. subst ps. clear Hps.
     unfold handle_workspace_symbols.
     match goal with |- exists v, (do syms <- mapm ?F ?L; _) = _ => destruct (mapm_ok F L) as (ys & ->) end; [|cbn [bind]; eauto].
@@ -642,10 +1053,11 @@ Section Handlers2.
   Qed.
 
   Theorem code_action_total key line er only :
-    key_exists g key = true -> line_target_ok g key line = true ->
-    exists v, handle_code_action cf s key line er only = Ok v.
+    key_exists g key = true -> exists v, handle_code_action cf s key line er only = Ok v.
   Proof.
-    intros Hk Ht. unfold handle_code_action, line_target_ok in *. fold g.
+    intros Hk. assert (Ht : line_target_ok g key line = true).
+    { apply line_target_ok_holds; [exact (H_wf sv HS) | exact (proj1 (proj2 (proj2 HS))) | exact Hk]. }
+    unfold handle_code_action, line_target_ok in *. fold g.
     destruct (node_id_at_ok key line Hk) as ([target|] & E); rewrite E in *; cbn [bind]; [|eauto].
     destruct (er || cf_helix cf); [|eauto].
     destruct (key_of g target) as [k|] eqn:Hkey; [|discriminate].
@@ -794,7 +1206,7 @@ Proof.
   - apply negb_false_iff in Hm. apply rmap_ok. now apply workspace_symbols_total.
   - eauto.
   - eauto.
-  - apply orb_false_iff in Hm as [H1 H2]. apply negb_false_iff in H1, H2. apply rmap_ok. now apply code_action_total.
+  - apply negb_false_iff in Hm. apply rmap_ok. now apply code_action_total.
   - destruct k as [k|]; [|discriminate]. destruct data as [target|]; [|discriminate].
     apply orb_false_iff in Hm as [H1 H2]. apply negb_false_iff in H1, H2. apply rmap_ok. now apply resolve_total.
   - apply negb_false_iff in Hm. apply rmap_ok. now apply formatting_total.
@@ -827,8 +1239,7 @@ Definition config_ok (cf : config) : Prop :=
 Definition request_ok (cf : config) (sv : sstate) (r : request) : Prop :=
   let g := gs_graph (ss_gs sv) in
   match r with
-  | RInlayHint key | RFormatting key => key_exists g key = true
-  | RCodeAction key line _ _ => key_exists g key = true /\ line_target_ok g key line = true
+  | RInlayHint key | RFormatting key | RCodeAction key _ _ _ => key_exists g key = true
   | RCodeActionResolve k data kg =>
       (* the action was offered: same kind, same node; the key generator can draw what the kind needs *)
       exists k' target title, k = Some k' /\ data = Some target /\
@@ -847,7 +1258,6 @@ Proof.
   intros HS (Hb & Hv & Hd) Hr. apply C12_panic_sound; [exact HS|].
   destruct r as [key| |key|key p|qe score|key| |key line er only|k data kg|key|key|key p|key p new_name|c| ];
     cbn [may_panic request_ok] in *; try reflexivity; try (now rewrite ?Hr, ?Hb, ?Hv, ?Hd).
-  - destruct Hr as [H1 H2]. now rewrite H1, H2.
   - destruct Hr as (k' & target & title & -> & -> & Ha & Hkg). rewrite Hb. cbn [negb orb]. rewrite orb_false_r.
     apply negb_false_iff. rewrite <- (resolve_is_domain sv HS).
     destruct (C09_offered_resolves_graph (gs_graph (ss_gs sv)) k' kg target title (H_wf sv HS) Ha)
@@ -1122,3 +1532,65 @@ End RouterInstance.
 Print Assumptions C12_server_exactly_once.
 Print Assumptions C12_answered_with_result.
 Print Assumptions C12_error_means_class.
+
+
+(* ================================================================================================ *)
+(* S6 — exact domains, and the link to Reachable.reached                                             *)
+(* ================================================================================================ *)
+
+(* inlay hints, formatting, code actions: at a state of the invariant the handler panics EXACTLY when
+   the note does not exist (for code actions: whatever the line, the range and the `only` filter) *)
+Theorem C12_key_methods_exact cf sv key :
+  SInv sv ->
+  let ex := key_exists (gs_graph (ss_gs sv)) key in
+  is_ok (handle cf sv (RInlayHint key)) = ex /\
+  is_ok (handle cf sv (RFormatting key)) = ex /\
+  (forall line er only, is_ok (handle cf sv (RCodeAction key line er only)) = ex).
+Proof.
+  intros HS ex. subst ex. destruct (key_exists (gs_graph (ss_gs sv)) key) eqn:E.
+  - repeat split; intros;
+      match goal with |- is_ok (handle cf sv ?r) = true =>
+        destruct (C12_panic_sound cf sv r HS) as (v & ->); [cbn [may_panic]; now rewrite E | reflexivity] end.
+  - split; [now rewrite (inlay_unknown_key_panics cf sv key HS E)|].
+    split; [now rewrite (formatting_unknown_key_panics cf sv key E)|].
+    intros. now rewrite (code_action_unknown_key_panics cf sv key line er only HS E).
+Qed.
+Print Assumptions C12_key_methods_exact.
+
+(* the graph part of a server state reached by Server::new and notifications is a state of
+   Reachable.reached: every theorem about reached states (C04, C05, C17, C18, C20) applies to it *)
+Fixpoint ops_of_notes (ns : list note) : list IndexHistory.op :=
+  match ns with
+  | [] => []
+  | NChange key meta bs _ :: r => (key, meta, bs) :: ops_of_notes r
+  | _ :: r => ops_of_notes r
+  end.
+
+Lemma server_run_updates ns : forall sv sv', server_run sv ns = Ok sv' ->
+  run_updates true (ss_gs sv) (ops_of_notes ns) = Ok (ss_gs sv').
+Proof.
+  induction ns as [|n r IH]; intros sv sv' H; cbn [server_run] in H.
+  - injection H as <-. reflexivity.
+  - apply bind_inv in H as (sv1 & H1 & H). destruct n as [key meta bs d| |]; cbn [did_change] in H1.
+    + apply bind_inv in H1 as (s1 & Hs & H1). apply bind_inv in H1 as (ps & _ & E). injection E as <-.
+      cbn [ops_of_notes run_updates]. rewrite Hs. cbn [bind]. exact (IH _ _ H).
+    + discriminate.
+    + injection H1 as <-. cbn [ops_of_notes]. exact (IH _ _ H).
+Qed.
+
+Theorem sreached_reached notes docs ns sv :
+  sreached notes docs ns sv -> reached notes (ops_of_notes ns) (ss_gs sv).
+Proof.
+  intros (sv0 & H0 & H). unfold server_new in H0. apply bind_inv in H0 as (s0 & Hs0 & H0).
+  apply bind_inv in H0 as (ps & _ & E). injection E as <-.
+  exists s0. split; [exact Hs0|]. exact (server_run_updates ns _ _ H).
+Qed.
+Print Assumptions sreached_reached.
+Print Assumptions line_target_ok_holds.
+Print Assumptions search_paths_total.
+Print Assumptions server_new_total.
+Print Assumptions did_change_total.
+Print Assumptions sreached_total.
+Print Assumptions resolve_panic_exact.
+Print Assumptions inlay_unknown_key_panics.
+Print Assumptions handlers_total_nonvacuous.
